@@ -231,6 +231,10 @@ func (h *H[T]) C11(rc *runCtx) *Violation {
 				}
 				var pv any
 				pbID, pbLen := sim.ObjID(unsafe.Pointer(pb)), pb.Len() // the buffer must not be touched after Put
+				// The hold ends when Put is invoked, not when it returns: with
+				// inner pre-emption a call spans several steps, and the pool may
+				// legitimately hand the buffer on as soon as it has it.
+				invStep := t.Step
 				func() {
 					defer func() { pv = recover() }()
 					handleOf(cy).Put(pb)
@@ -238,9 +242,9 @@ func (h *H[T]) C11(rc *runCtx) *Violation {
 				ops++
 				sim.Mix(0xa000 | uint64(pbID)<<16)
 				// Whatever header went into the pool, the task lets go of the one it got.
-				ts.events = append(ts.events, poolEvent{step: t.Step, task: ti, kind: evPut, obj: sim.ObjID(unsafe.Pointer(hdr)), rejected: pv != nil})
+				ts.events = append(ts.events, poolEvent{step: invStep, task: ti, kind: evPut, obj: sim.ObjID(unsafe.Pointer(hdr)), rejected: pv != nil})
 				if pb != hdr {
-					ts.events = append(ts.events, poolEvent{step: t.Step, task: ti, kind: evPut, obj: pbID, rejected: pv != nil})
+					ts.events = append(ts.events, poolEvent{step: invStep, task: ti, kind: evPut, obj: pbID, rejected: pv != nil})
 				}
 				sim.Tracef("  task %d cycle %d: Put obj#%d (len=%d) rejected=%v", ti, cyc, pbID, pbLen, pv != nil)
 			}
